@@ -1,5 +1,39 @@
 package props
 
-import "verif/harness/core"
+import (
+	"fmt"
+	"strings"
 
-func c09ws(c *core.Ctx) {}
+	"verif/harness/core"
+)
+
+// c09ws: the websocket client reports a failed frame write, and a message that cannot be
+// encoded reaches the connection with no byte at all.
+func c09ws(c *core.Ctx) {
+	C1 := xOp{kind: "C", dialOK: true}
+	for _, size := range []int{10, 2049, 6000} {
+		for _, wok := range []bool{true, false} {
+			cf := xConf{name: fmt.Sprintf("ws send size=%d write-ok=%v", size, wok), progs: [][]xOp{{C1, xSend(size, wok), xBad(), {kind: "W", raw: []byte{1, 2, 3}, wok: wok}, xSend(12, true)}}}
+			run := runX(cf, nil, false)
+			c.Eval()
+			c.Hist("websocket client: " + cf.name)
+			tr := strings.Join(run.events, ";")
+			c.Corr("c09-ws", "wsc_check", []string{"0", cf.modelProgs(), cf.modelPlan(), "4", tr, renderRets(run.rets)}, "ok")
+			want := []string{"0", map[bool]string{true: "0", false: "4"}[wok], "3", map[bool]string{true: "0", false: "4"}[wok], "0"}
+			if len(run.rets[0]) != 5 {
+				c.Violation("judge-go", "c09-ws", "websocket client calls did not all return", nil)
+				continue
+			}
+			for i := range want {
+				if run.rets[0][i] != want[i] {
+					c.Violation("judge-go", "c09-ws-result", fmt.Sprintf("websocket client call %d returned %s, want %s (%s)", i, run.rets[0][i], want[i], cf.name),
+						map[string]interface{}{"events": trunc(tr, 300)})
+				}
+			}
+			// the unencodable message produced no Write: exactly 3 writes, with the right bytes
+			if n := run.conns[0].NumWrites(); n != 3 {
+				c.Violation("judge-go", "c09-ws-writes", fmt.Sprintf("%d writes reached the websocket connection for 3 encodable sends and one unencodable one", n), nil)
+			}
+		}
+	}
+}
